@@ -306,6 +306,7 @@ class Visitor(ast.NodeVisitor):
         self,
         variable_lookup: List[Mapping[str, Any]],
         code_names: Optional[Iterable[str]] = None,
+        qualname: Optional[str] = None,
     ) -> None:
         """
         Initialize.
@@ -313,10 +314,23 @@ class Visitor(ast.NodeVisitor):
         :param variable_lookup: list of lookup tables to look-up the values of the variables, sorted by precedence
         :param code_names:
             names used in the compiled code of the condition (including the private names mangled by Python)
+        :param qualname:
+            qualified name of the condition (it names the classes in whose bodies the condition was written)
         """
         self._code_names = (
             frozenset() if code_names is None else frozenset(code_names)
         )  # type: AbstractSet[str]
+
+        # Scopes enclosing the condition, the inner-most first
+        self._enclosing_scopes = (
+            []
+            if qualname is None
+            else [
+                part
+                for part in reversed(qualname.split("."))
+                if part.isidentifier()
+            ]
+        )  # type: List[str]
 
         # _name_to_value maps the variable names to variable values.
         # This is important for Load contexts as well as Store contexts in, e.g., named expressions.
@@ -818,6 +832,51 @@ class Visitor(ast.NodeVisitor):
         self.recomputed_values[node] = result
         return result
 
+    def _mangle_private_name(self, name: str) -> Optional[str]:
+        """
+        Mangle the private name (``__some_name``) the way Python did it when it compiled the condition.
+
+        Python mangles a private name with the name of the inner-most class in whose body the code was written. We do
+        not know which of the enclosing scopes are classes, but only a name mangled with a class occurs in the code.
+
+        :return: the mangled name, or None if the name is not private or no mangled name was found in the code
+        """
+        if not name.startswith("__") or name.endswith("__"):
+            return None
+
+        for scope in self._enclosing_scopes:
+            mangled = "_{}{}".format(scope.lstrip("_"), name)
+            if mangled in self._code_names:
+                return mangled
+
+        return None
+
+    def _with_mangled_private_names(self, node: ast.expr) -> ast.expr:
+        """
+        Copy the node and mangle the private attributes in the copy as Python did when it compiled the condition.
+
+        This is necessary for the code which we compile ourselves, out of the class body in which the condition
+        was written (*e.g.*, comprehensions).
+        """
+        attributes = [
+            child
+            for child in ast.walk(node)
+            if isinstance(child, ast.Attribute)
+            and self._mangle_private_name(name=child.attr) is not None
+        ]
+
+        if len(attributes) == 0:
+            return node
+
+        node_copy = copy.deepcopy(node)
+        for child in ast.walk(node_copy):
+            if isinstance(child, ast.Attribute):
+                mangled = self._mangle_private_name(name=child.attr)
+                if mangled is not None:
+                    child.attr = mangled
+
+        return node_copy
+
     def visit_Attribute(self, node: ast.Attribute) -> Any:
         """Visit the node's ``value`` and get the attribute from the result."""
         value = self.visit(node=node.value)
@@ -843,19 +902,16 @@ class Visitor(ast.NodeVisitor):
 
             # The compiled code of the condition names the mangled attribute, so we try that one first. This matters
             # when several classes in the hierarchy of the object define the same private name.
-            mangled_in_code = [
-                name
-                for name in sorted(self._code_names)
-                if name.startswith("_")
-                and not name.startswith("__")
-                and name.endswith(node.attr)
-                and len(name) > len(node.attr) + 1
-            ]
+            candidates = []  # type: List[str]
 
-            candidates = mangled_in_code + [
+            mangled_in_code = self._mangle_private_name(name=node.attr)
+            if mangled_in_code is not None:
+                candidates.append(mangled_in_code)
+
+            candidates.extend(
                 "_{}{}".format(cls.__name__.lstrip("_"), node.attr)
                 for cls in type(value).__mro__
-            ]
+            )
 
             for mangled in candidates:
                 if hasattr(value, mangled):
@@ -978,7 +1034,7 @@ class Visitor(ast.NodeVisitor):
         # To that end, we translate the generator expression to a tracing function and
         # execute it.
 
-        generator_exp = node.args[0]
+        generator_exp = self._with_mangled_private_names(node=node.args[0])
         assert isinstance(generator_exp, ast.GeneratorExp)
 
         generated_function_name = "icontract_tracing_all_with_generator_expr_{}".format(
@@ -1020,6 +1076,9 @@ class Visitor(ast.NodeVisitor):
         self, node: Union[ast.ListComp, ast.SetComp, ast.GeneratorExp, ast.DictComp]
     ) -> Any:
         """Compile the generator or comprehension from the node and execute the compiled code."""
+        # The code is compiled out of the class body in which the condition was written.
+        mangled_node = self._with_mangled_private_names(node=node)
+
         # Please see "NOTE ABOUT NAME 🠒 VALUE STACKING".
         if any(value is PLACEHOLDER for value in self._name_to_value.values()):
             return PLACEHOLDER
@@ -1043,7 +1102,7 @@ class Visitor(ast.NodeVisitor):
                     args=args, kwonlyargs=[], kw_defaults=[], defaults=[]
                 ),
                 decorator_list=[],
-                body=[ast.Return(node)],
+                body=[ast.Return(mangled_node)],
             )
 
             module_node = ast.Module(body=[func_def_node])
@@ -1058,7 +1117,7 @@ class Visitor(ast.NodeVisitor):
                     defaults=[],
                 ),
                 decorator_list=[],
-                body=[ast.Return(node)],
+                body=[ast.Return(mangled_node)],
             )
 
             module_node = ast.Module(body=[func_def_node], type_ignores=[])
